@@ -100,8 +100,9 @@ DIRS = ["", "", "inc/", "sub/deeper/", "a.b/", "inc/more/"]
 
 
 class Tree:
-    def __init__(self, ch, root_dir, max_depth, force_depth=None):
+    def __init__(self, ch, root_dir, max_depth, force_depth=None, reuse=()):
         self.ch, self.root_dir = ch, root_dir
+        self.reuse = list(reuse)   # file names of an earlier tree in the same directory, to be overwritten
         self.files = {}      # relative path -> text
         self.n = 0
         self.max_depth = max_depth
@@ -112,6 +113,8 @@ class Tree:
 
     def new_name(self):
         self.n += 1
+        if self.reuse:
+            return self.reuse.pop(0)
         d = self.ch.choice(DIRS)
         nm = self.ch.choice(NAMES)
         return f"{d}{self.n}_{nm}"
@@ -216,7 +219,7 @@ def load_entry(entry, root_path, root_dir, other_dir, expand=True):
 ENTRIES = ["open_abs", "open_rel", "load_fp", "loads_cwd"]
 
 
-def run_tree(doc, ch, acc, variant):
+def run_tree(doc, ch, acc, variant, doc2=None):
     W = env.Workers.get()
     base = tempfile.mkdtemp(prefix="mfv_c15_")
     try:
@@ -257,7 +260,28 @@ def run_tree(doc, ch, acc, variant):
             acc.cls("absolute_include_path")
         if any("\r\n" in v for v in files.values()):
             acc.cls("crlf_file")
-        return check_tree(files, root_dir, other_dir, root_path, entry, variant, missing, depth, case)
+        res = check_tree(files, root_dir, other_dir, root_path, entry, variant, missing, depth, case)
+        if res or variant != "tree" or doc2 is None or not t.files or not ch.chance(1, 2):
+            return res
+        # the files decide at the time of each load: the same paths, rewritten (or one removed), loaded again
+        if ch.chance(1, 4):
+            missing2 = ch.choice(sorted(t.files))
+            os.remove(os.path.join(root_dir, missing2))
+            files2, variant2, depth2 = files, "missing", depth
+            acc.cls("reload:file_removed")
+        else:
+            t2 = Tree(ch, root_dir, max_depth=4, reuse=sorted(t.files))
+            root_lines2 = t2.build([units_of(o) for o in doc2()], 0)
+            files2 = dict(t2.files)
+            files2["root.map"] = nl.join(root_lines2) + nl
+            missing2, variant2, depth2 = None, "tree", t2.depth_reached
+            write_tree(root_dir, files2)
+            acc.cls("reload:files_rewritten", len(set(files2) & set(files)) - 1)
+        entry2 = ch.choice(ENTRIES)
+        case2 = dict(case, then={"files": files2, "entry": entry2, "variant": variant2, "missing": missing2})
+        acc.case(["reload", files2, missing2], True)
+        res = check_tree(files2, root_dir, other_dir, root_path, entry2, variant2, missing2, depth2, case2)
+        return [Discrepancy("reload:" + d.bucket, "after an earlier load of the same paths with other content: " + d.message, d.case) for d in res]
     finally:
         shutil.rmtree(base, ignore_errors=True)
 
@@ -357,7 +381,7 @@ def search(acc: Acc, tier, shard, nshards):
             acc.cls("variant:no_expand")
             return check_no_expand(doc, ch, acc)
         doc = model.Gen(ch, prof).document()
-        return run_tree(doc, ch, acc, variant)
+        return run_tree(doc, ch, acc, variant, doc2=lambda: model.Gen(ch, prof).document())
 
     hyp_search(acc, ID, "trees", shard, n, body, tier)
 
@@ -386,7 +410,20 @@ def replay(case):
         missing = case.get("missing")
         write_tree(root_dir, {k: v for k, v in files.items() if k != missing})
         depth = _depth(files, "root.map", root_dir, set())
-        return check_tree(files, root_dir, other, os.path.join(root_dir, "root.map"), case["entry"], case["variant"], missing, depth, case)
+        res = check_tree(files, root_dir, other, os.path.join(root_dir, "root.map"), case["entry"], case["variant"], missing, depth, case)
+        then = case.get("then")
+        if res or not then:
+            return res
+        files2 = then["files"]
+        if old_root:
+            files2 = {k: v.replace(old_root, root_dir) for k, v in files2.items()}
+        if then.get("missing"):
+            os.remove(os.path.join(root_dir, then["missing"]))
+        else:
+            write_tree(root_dir, files2)
+        depth2 = _depth(files2, "root.map", root_dir, set())
+        res = check_tree(files2, root_dir, other, os.path.join(root_dir, "root.map"), then["entry"], then["variant"], then.get("missing"), depth2, case)
+        return [Discrepancy("reload:" + d.bucket, "after an earlier load of the same paths with other content: " + d.message, d.case) for d in res]
     finally:
         shutil.rmtree(base, ignore_errors=True)
 
